@@ -84,3 +84,43 @@ Theorem c07_columns_layout_invariant_on_single_select : forall n1 n2 e s,
   script_pairs e false [] [r_stmt n1 s] = script_pairs e false [] [r_stmt n2 s].
 Proof. exact cols_layout_invariant_on_single_select. Qed.
 Print Assumptions c07_columns_layout_invariant_on_single_select.
+
+(** (f) SPELLING (Tree/RenderSpell.v, Tree/LemmaASpell.v, 3 600 lines): the renderer is parameterised by a spelling [sp] of every
+    identifier leaf and a spelling [kwf] of every keyword leaf.  A spelling is admissible when it normalises back
+    ([escape (sp x) = x], no dot inside) - the identity, ANY function that changes only letter case, wrapping in double quotes,
+    backticks or brackets are proved admissible; a keyword spelling is admissible iff it changes only letter case.  Then the
+    whole extractor reports the specified tables for every admissible spelling (Lemma A under spelling), hence the same tables
+    for any two spellings and trivia lists; and on the single-SELECT fragment the whole pipeline reports the specified COLUMN
+    pairs (the statement holders are even equal).  This is the case / quoting clause of C07 (and C16's "one entity however
+    spelled") for the whole extractor.  Modelling limit: a quoted identifier keeps the leaf type naked_identifier of
+    Tree/Render.v where the parser says quoted_identifier (no function of the model mentions either type); the parser's own
+    trees of re-spelled text are covered by the tie and the metamorphic suite. *)
+From SV Require Import Tree.RenderSpell Tree.LemmaASpell.
+
+Theorem c07_tables_spelling_invariant_on_core : forall sp1 kw1 noise1 sp2 kw2 noise2 e s,
+  sp_ok sp1 -> kw_ok kw1 -> noise_ok noise1 = true ->
+  sp_ok sp2 -> kw_ok kw2 -> noise_ok noise2 = true ->
+  env_ok e = true -> stmt_ok s = true -> sshape s = true ->
+  stmt_reads (analyze e false (r_stmt_sp sp1 kw1 noise1 s)) = stmt_reads (analyze e false (r_stmt_sp sp2 kw2 noise2 s)) /\
+  stmt_writes (analyze e false (r_stmt_sp sp1 kw1 noise1 s)) = stmt_writes (analyze e false (r_stmt_sp sp2 kw2 noise2 s)).
+Proof. exact spelling_invariance. Qed.
+Print Assumptions c07_tables_spelling_invariant_on_core.
+
+Theorem c07_exact_under_any_spelling : forall sp kwf noise e s,
+  sp_ok sp -> kw_ok kwf -> noise_ok noise = true -> env_ok e = true -> stmt_ok s = true -> sshape s = true ->
+  stmt_reads (analyze e false (r_stmt_sp sp kwf noise s)) = sort_strings (spec_reads (e_cfg e) s) /\
+  stmt_writes (analyze e false (r_stmt_sp sp kwf noise s)) = sort_strings (spec_writes (e_cfg e) s).
+Proof. exact lemma_A_spelling. Qed.
+Print Assumptions c07_exact_under_any_spelling.
+
+Theorem c07_columns_exact_under_any_spelling_on_single_select : forall sp kwf noise e s,
+  sp_ok sp -> kw_ok kwf -> noise_ok noise = true -> env_ok e = true ->
+  stmt_ok s = true -> sshape s = true -> colshape s = true -> single_select_fragment s = true ->
+  script_pairs e false [] [r_stmt_sp sp kwf noise s] = spec_pairs (e_cfg e) s.
+Proof. exact lemma_B_spelling_single_select. Qed.
+Print Assumptions c07_columns_exact_under_any_spelling_on_single_select.
+
+Theorem c07_case_changes_and_quoting_are_admissible :
+  (forall f, case_only f -> sp_ok f) /\ sp_ok sp_dq /\ sp_ok sp_bt /\ sp_ok sp_br /\ (forall f, kw_ok f <-> case_only f).
+Proof. split; [exact sp_ok_case_only|]. split; [exact sp_ok_dq|]. split; [exact sp_ok_bt|]. split; [exact sp_ok_br|exact kw_ok_iff]. Qed.
+Print Assumptions c07_case_changes_and_quoting_are_admissible.
